@@ -1,0 +1,9 @@
+//go:build verif
+
+package beaconing
+
+import seg "github.com/scionproto/scion/pkg/segment"
+
+// VerifExtractBeta exposes extractBeta (the SegID accumulator the extender uses
+// for the next hop field) for the correspondence harness under /verif.
+func VerifExtractBeta(ps *seg.PathSegment) uint16 { return extractBeta(ps) }
